@@ -216,40 +216,41 @@ Step(m0) ==
         THEN [me EXCEPT !.k = rest, !.env = SubSeq(m.env, 1, f.envlen), !.cur = f.cur]
         ELSE LET s == f.stmts[f.i]  k1 == Push(rest, [f EXCEPT !.i = f.i + 1]) IN
           IF s.id \in m.cfg.skip THEN [me EXCEPT !.k = k1] ELSE
-          (CASE s.k = "make" -> [me EXCEPT !.k = Push(Push(k1, [t |-> "bind", site |-> s.site]), [t |-> "ev", e |-> s.e])]
-             [] s.k = "make0" -> [me EXCEPT !.k = Push(k1, [t |-> "bind", site |-> s.site]), !.vs = Push(m.vs, VNull)]
-             [] s.k = "set" -> [me EXCEPT !.k = Push(Push(k1, [t |-> "store", site |-> s.site]), [t |-> "ev", e |-> s.e])]
+          LET mc == [me EXCEPT !.cs = s.id] IN
+          (CASE s.k = "make" -> [mc EXCEPT !.k = Push(Push(k1, [t |-> "bind", site |-> s.site, id |-> s.id]), [t |-> "ev", e |-> s.e])]
+             [] s.k = "make0" -> [mc EXCEPT !.k = Push(k1, [t |-> "bind", site |-> s.site, id |-> s.id]), !.vs = Push(m.vs, VNull)]
+             [] s.k = "set" -> [mc EXCEPT !.k = Push(Push(k1, [t |-> "store", site |-> s.site, id |-> s.id]), [t |-> "ev", e |-> s.e])]
              [] s.k = "seti" ->
                   IF \E j \in 1..Len(s.is) : HasCall(s.is[j]) THEN Unspec(m, "call in index of assignment target")
-                  ELSE [me EXCEPT !.k = Push(EvalList(Push(k1, [t |-> "storei", site |-> s.site, n |-> Len(s.is)]), s.is), [t |-> "ev", e |-> s.e])]
-             [] s.k = "expr" -> [me EXCEPT !.k = Push(Push(k1, [t |-> "drop"]), [t |-> "ev", e |-> s.e])]
+                  ELSE [mc EXCEPT !.k = Push(EvalList(Push(k1, [t |-> "storei", site |-> s.site, n |-> Len(s.is)]), s.is), [t |-> "ev", e |-> s.e])]
+             [] s.k = "expr" -> [mc EXCEPT !.k = Push(Push(k1, [t |-> "drop"]), [t |-> "ev", e |-> s.e])]
              \* assignment whose target is not rooted at a variable (`f()[0] get 2`): nothing documents it
              [] s.k = "setx" -> Unspec(m, "assignment target is not a variable")
-             [] s.k = "if" -> [me EXCEPT !.k = Push(Push(k1, [t |-> "ifc", s |-> s]), [t |-> "ev", e |-> s.c])]
-             [] s.k = "loop" -> [me EXCEPT !.k = Push(Push(Push(k1, [t |-> "loopend", envlen |-> Len(m.env), cur |-> m.cur]), [t |-> "loopc", s |-> s]), [t |-> "ev", e |-> s.c])]
-             [] s.k = "block" -> EnterBlock(me, k1, s.b, m.cur)
-             [] s.k = "def" -> [me EXCEPT !.k = k1]
-             [] s.k = "ret" -> [me EXCEPT !.k = Push(Push(k1, [t |-> "retv"]), [t |-> "ev", e |-> s.e])]
-             [] s.k = "ret0" -> [me EXCEPT !.k = Push(k1, [t |-> "retv"]), !.vs = Push(m.vs, VNull)]
+             [] s.k = "if" -> [mc EXCEPT !.k = Push(Push(k1, [t |-> "ifc", s |-> s]), [t |-> "ev", e |-> s.c])]
+             [] s.k = "loop" -> [mc EXCEPT !.k = Push(Push(Push(k1, [t |-> "loopend", envlen |-> Len(m.env), cur |-> m.cur]), [t |-> "loopc", s |-> s]), [t |-> "ev", e |-> s.c])]
+             [] s.k = "block" -> EnterBlock(mc, k1, s.b, m.cur)
+             [] s.k = "def" -> [mc EXCEPT !.k = k1]
+             [] s.k = "ret" -> [mc EXCEPT !.k = Push(Push(k1, [t |-> "retv"]), [t |-> "ev", e |-> s.e])]
+             [] s.k = "ret0" -> [mc EXCEPT !.k = Push(k1, [t |-> "retv"]), !.vs = Push(m.vs, VNull)]
              [] s.k = "brk" -> LET i == FirstOf(k1, {"loopend", "callret"}) IN
                                IF i = 0 \/ k1[i].t # "loopend" THEN Unspec(m, "comot outside loop")
-                               ELSE [me EXCEPT !.k = SubSeq(k1, i + 1, Len(k1)), !.env = SubSeq(m.env, 1, k1[i].envlen), !.cur = k1[i].cur]
+                               ELSE [mc EXCEPT !.k = SubSeq(k1, i + 1, Len(k1)), !.env = SubSeq(m.env, 1, k1[i].envlen), !.cur = k1[i].cur]
              [] s.k = "cont" -> LET i == FirstOf(k1, {"loopc", "callret"})  j == FirstOf(k1, {"loopend"}) IN
                                 IF i = 0 \/ k1[i].t # "loopc" THEN Unspec(m, "next outside loop")
-                                ELSE [me EXCEPT !.k = Push(SubSeq(k1, i, Len(k1)), [t |-> "ev", e |-> k1[i].s.c]),
+                                ELSE [mc EXCEPT !.k = Push(SubSeq(k1, i, Len(k1)), [t |-> "ev", e |-> k1[i].s.c]),
                                                 !.env = SubSeq(m.env, 1, k1[j].envlen), !.cur = k1[j].cur])
     [] f.t = "drop" -> [m EXCEPT !.k = rest, !.vs = Pop(m.vs)]
     [] f.t = "bind" ->      \* make: (re)binds the variable of this site in the CURRENT frame
         LET fr == m.env[m.cur]  v == Top(m.vs)
             I == {j \in 1..Len(fr.vars) : fr.vars[j].site = f.site}
-        IN IF I = {} THEN [m EXCEPT !.k = rest, !.vs = Pop(m.vs), !.env[m.cur].vars = Append(fr.vars, [site |-> f.site, v |-> v]),
+        IN IF I = {} THEN [m EXCEPT !.k = rest, !.vs = Pop(m.vs), !.env[m.cur].vars = Append(fr.vars, [site |-> f.site, v |-> v, w |-> f.id]),
                                     !.e = <<"assign", f.site, v>>]
            ELSE LET j == CHOOSE j \in I : TRUE IN
-                [m EXCEPT !.k = rest, !.vs = Pop(m.vs), !.env[m.cur].vars[j].v = v, !.e = <<"assign", f.site, v>>]
+                [m EXCEPT !.k = rest, !.vs = Pop(m.vs), !.env[m.cur].vars[j].v = v, !.env[m.cur].vars[j].w = f.id, !.e = <<"assign", f.site, v>>]
     [] f.t = "store" ->
         LET r == FindVar(m.env, m.cur, f.site)  v == Top(m.vs) IN
         IF ~r.ok THEN Unspec(m, "tdz") ELSE
-        [m EXCEPT !.k = rest, !.vs = Pop(m.vs), !.env[r.fi].vars[r.vi].v = v, !.e = <<"assign", f.site, v>>]
+        [m EXCEPT !.k = rest, !.vs = Pop(m.vs), !.env[r.fi].vars[r.vi].v = v, !.env[r.fi].vars[r.vi].w = f.id, !.e = <<"assign", f.site, v>>]
     [] f.t = "storei" ->    \* a[i1]..[in] get v : value stack holds in .. i1, v (v evaluated first)
         LET ivs == TopN(m.vs, f.n)  v == m.vs[f.n + 1]  vs1 == DropN(m.vs, f.n + 1)
             r == FindVar(m.env, m.cur, f.site)
@@ -263,7 +264,7 @@ Step(m0) ==
                     errs == errsI \cup (IF walk.ok THEN {} ELSE {walk.why})
                 IN IF "Unspecified" \in errs \/ Cardinality(errs) > 1 THEN Unspec(m, "index assignment with several faults or a non-array")
                    ELSE IF errs # {} THEN Fail(m, CHOOSE x \in errs : TRUE)
-                   ELSE [m EXCEPT !.k = rest, !.vs = vs1, !.env[r.fi].vars[r.vi].v = SetPath(a, path, v)]
+                   ELSE [m EXCEPT !.k = rest, !.vs = vs1, !.env[r.fi].vars[r.vi].v = SetPath(a, path, v), !.used = @ \cup {<<m.env[r.fi].vars[r.vi].w, m.cs>>}]
     [] f.t = "ifc" ->
         LET c == Top(m.vs)  m1 == [m EXCEPT !.vs = Pop(m.vs)] IN
         IF c.t \notin {"bool", "null"} THEN Unspec(m, "non-boolean condition")
@@ -279,10 +280,10 @@ Step(m0) ==
     [] f.t = "retv" ->
         LET i == FirstOf(rest, {"callret"}) IN
         IF i = 0 THEN Unspec(m, "return outside function")
-        ELSE [m EXCEPT !.k = SubSeq(rest, i + 1, Len(rest)), !.env = SubSeq(m.env, 1, rest[i].envlen), !.cur = rest[i].cur,
+        ELSE [m EXCEPT !.k = SubSeq(rest, i + 1, Len(rest)), !.env = SubSeq(m.env, 1, rest[i].envlen), !.cur = rest[i].cur, !.cs = rest[i].cs,
                        !.e = <<"ret", rest[i].fn, Top(m.vs)>>]
     [] f.t = "callret" ->   \* fell off the end of the body: implicit null
-        [m EXCEPT !.k = rest, !.vs = Push(m.vs, VNull), !.env = SubSeq(m.env, 1, f.envlen), !.cur = f.cur, !.e = <<"ret", f.fn, VNull>>]
+        [m EXCEPT !.k = rest, !.vs = Push(m.vs, VNull), !.env = SubSeq(m.env, 1, f.envlen), !.cur = f.cur, !.cs = f.cs, !.e = <<"ret", f.fn, VNull>>]
     [] f.t = "list" ->      \* left-to-right evaluation of a list of expressions
         IF f.i = Len(f.es) THEN [m EXCEPT !.k = rest]
         ELSE [m EXCEPT !.k = Push(Push(rest, [f EXCEPT !.i = f.i + 1]), [t |-> "ev", e |-> f.es[f.i + 1]])]
@@ -293,7 +294,7 @@ Step(m0) ==
            [] e.k = "null" -> [m EXCEPT !.k = rest, !.vs = Push(m.vs, VNull)]
            [] e.k = "str" -> [m EXCEPT !.k = Push(rest, [t |-> "interp", segs |-> e.segs, i |-> 1, acc |-> <<>>])]
            [] e.k = "var" -> LET r == FindVar(m.env, m.cur, e.site) IN
-                             IF ~r.ok THEN Unspec(m, "tdz") ELSE [m EXCEPT !.k = rest, !.vs = Push(m.vs, m.env[r.fi].vars[r.vi].v)]
+                             IF ~r.ok THEN Unspec(m, "tdz") ELSE [m EXCEPT !.k = rest, !.vs = Push(m.vs, m.env[r.fi].vars[r.vi].v), !.used = @ \cup {<<m.env[r.fi].vars[r.vi].w, m.cs>>}]
            [] e.k = "un" -> [m EXCEPT !.k = Push(Push(rest, [t |-> "un", op |-> e.op]), [t |-> "ev", e |-> e.e])]
            [] e.k = "bin" -> [m EXCEPT !.k = Push(Push(rest, [t |-> "bin2", op |-> e.op, r |-> e.r]), [t |-> "ev", e |-> e.l])]
            [] e.k = "arr" -> [m EXCEPT !.k = EvalList(Push(rest, [t |-> "mkarr", n |-> Len(e.es)]), e.es)]
@@ -319,7 +320,7 @@ Step(m0) ==
              ELSE LET r == FindVar(m.env, m.cur, sg.site) IN
                   IF ~r.ok THEN Unspec(m, "tdz") ELSE LET v == m.env[r.fi].vars[r.vi].v IN
                   IF ~IsScalar(v) THEN Unspec(m, "array in interpolation")
-                  ELSE [m EXCEPT !.k = Push(rest, [f EXCEPT !.i = f.i + 1, !.acc = f.acc \o ScalarCps(v)])]
+                  ELSE [m EXCEPT !.k = Push(rest, [f EXCEPT !.i = f.i + 1, !.acc = f.acc \o ScalarCps(v)]), !.used = @ \cup {<<m.env[r.fi].vars[r.vi].w, m.cs>>}]
     [] f.t = "un" ->
         LET v == Top(m.vs) IN
         IF f.op = "not" /\ v.t \in {"bool", "null"} THEN [m EXCEPT !.k = rest, !.vs = Push(Pop(m.vs), VBool(~Truthy(v)))]
@@ -374,14 +375,14 @@ Step(m0) ==
                    ELSE IF tgt.v.t # "arr" THEN Unspec(m, "mutating method on a non-array")
                    ELSE LET old == tgt.v.v IN
                         (CASE f.m = "push" /\ f.na = 1 ->
-                               [m EXCEPT !.k = rest, !.vs = Push(vs1, VNull), !.env[r.fi].vars[r.vi].v = SetPath(a, path, VArr(Append(old, args[1])))]
+                               [m EXCEPT !.k = rest, !.vs = Push(vs1, VNull), !.env[r.fi].vars[r.vi].v = SetPath(a, path, VArr(Append(old, args[1]))), !.used = @ \cup {<<m.env[r.fi].vars[r.vi].w, m.cs>>}]
                           [] f.m = "pop" /\ f.na = 0 ->
                                IF old = <<>> THEN [m EXCEPT !.k = rest, !.vs = Push(vs1, VNull)]
                                ELSE [m EXCEPT !.k = rest, !.vs = Push(vs1, old[Len(old)]),
-                                              !.env[r.fi].vars[r.vi].v = SetPath(a, path, VArr(SubSeq(old, 1, Len(old) - 1)))]
+                                              !.env[r.fi].vars[r.vi].v = SetPath(a, path, VArr(SubSeq(old, 1, Len(old) - 1))), !.used = @ \cup {<<m.env[r.fi].vars[r.vi].w, m.cs>>}]
                           [] f.m = "reverse" /\ f.na = 0 ->
                                [m EXCEPT !.k = rest, !.vs = Push(vs1, VNull),
-                                         !.env[r.fi].vars[r.vi].v = SetPath(a, path, VArr([j \in 1..Len(old) |-> old[Len(old) - j + 1]]))]
+                                         !.env[r.fi].vars[r.vi].v = SetPath(a, path, VArr([j \in 1..Len(old) |-> old[Len(old) - j + 1]])), !.used = @ \cup {<<m.env[r.fi].vars[r.vi].w, m.cs>>}]
                           [] OTHER -> Unspec(m, "wrong argument count"))
     [] f.t = "apply" ->
         LET n == f.n  args == TopN(m.vs, n)  vs1 == DropN(m.vs, n) IN
@@ -396,15 +397,21 @@ Step(m0) ==
              ELSE LET d == r.f.def
                       pidx == Len(m.env) + 1
                       pframe == [parent |-> r.f.home, funs |-> <<>>,
-                                 vars |-> [j \in 1..n |-> [site |-> d.psites[j], v |-> args[j]]]]
+                                 vars |-> [j \in 1..n |-> [site |-> d.psites[j], v |-> args[j], w |-> 0]]]
                       m1 == [m EXCEPT !.vs = vs1, !.env = Append(m.env, pframe), !.cur = pidx, !.e = <<"call", d.n, d.site>>]
-                  IN EnterBlock(m1, Push(rest, [t |-> "callret", fn |-> d.n, envlen |-> Len(m.env), cur |-> m.cur]), d.b, pidx)
+                  IN EnterBlock(m1, Push(rest, [t |-> "callret", fn |-> d.n, envlen |-> Len(m.env), cur |-> m.cur, cs |-> m.cs]), d.b, pidx)
 
 NoSkip == [skip |-> {}, skipf |-> {}, env |-> FALSE]
 Init0(body, cfg) ==
   LET fr == NewFrame(0, body, 1, cfg.skipf) IN
   [k |-> <<[t |-> "blk", stmts |-> body, i |-> 1, envlen |-> 0, cur |-> 0]>>, vs |-> <<>>, env |-> <<fr>>, cur |-> 1,
-   out |-> <<>>, st |-> "run", e |-> <<>>, cfg |-> cfg]
+   out |-> <<>>, st |-> "run", e |-> <<>>, cfg |-> cfg,
+   \* def-use: every variable slot remembers the statement that wrote its current value (w; 0 = parameter);
+   \* `used` collects the statements whose written value was read afterwards (by a read, a placeholder,
+   \* an indexed store or an in-place mutation - wherever the reader sits, also in another function)
+   \* (pairs <<writer, reader>>: the statement being executed when the read happened; `cs` is that statement,
+   \* saved and restored around calls; after a nested block it is the last statement of that block)
+   used |-> {}, cs |-> 0]
 
 \* ---------- properties of the machine itself (checked by TLC in the drivers) ----------
 \* the continuation and the value stack are consistent: a finished run leaves no value behind
